@@ -24,7 +24,11 @@ TRUE_TOKENS = [("bool", True), ("int", "1"), ("str", "1"), ("str", "true"), ("st
                ("str", "yes"), ("str", "y"), ("str", "t"), ("str", "ON")]
 FALSE_TOKENS = [("bool", False), ("int", "0"), ("str", "0"), ("str", "false"), ("str", "False"), ("str", "off"),
                 ("str", "no"), ("str", "n"), ("str", "f"), ("str", "OFF")]
-BOOL_GARBAGE = [("str", "abc"), ("str", ""), ("none", None), ("str", "maybe"), ("str", "2"), ("dict", None)]
+BOOL_GARBAGE = [("str", "abc"), ("str", ""), ("none", None), ("str", "maybe"), ("dict", None)]
+BOOL_OTHERNUM = [("int", "2"), ("int", "-1"), ("int", "255"), ("int", str(2 ** 31)), ("int", str(2 ** 64 - 1)),
+                 ("int", str(10 ** 20)), ("int", "3"), ("int", "-255"), ("float", "2.0"), ("float", "-1.0"),
+                 ("float", "0.5"), ("float", "1e+20"), ("float", "1.0"), ("float", "0.0"), ("str", "2"), ("str", "-1"),
+                 ("str", "255"), ("str", "2.0"), ("str", "1.0"), ("str", "18446744073709551615"), ("str", "0.5")]
 
 
 # ------------------------------------------------------------------ encoded python values (JSON-able, exact)
